@@ -133,7 +133,9 @@ def main(argv=None) -> int:
     for mech in sorted(known_hit):
         lines.append(f"KNOWN-FINDING: property={prop} {mech}: {known[mech]['description']} "
                      f"(observed {m['violation_mechs'].get(mech, known_hit[mech])}x)")
-    replay_dir = os.path.join(ROOT, "replays", prop)
+    # validation runs against scratch copies (--no-evidence / VERIF_REPO) keep their replays out of /verif
+    scratch = a.no_evidence or "VERIF_REPO" in os.environ
+    replay_dir = os.path.join("/tmp/rv-replays" if scratch else os.path.join(ROOT, "replays"), prop)
     for mech, v in sorted(new_mechs.items()):
         os.makedirs(replay_dir, exist_ok=True)
         path = os.path.join(replay_dir, digest([mech, v["case"]]) + ".json")
